@@ -217,12 +217,20 @@ def run(rep: vlib.Reporter, tier: str, seed: int) -> None:
     dist: Dict[str, Any] = {"specs": len(specs), "runs": 0, "by_mode": {}, "left_threads": {}, "left_procs": 0,
                             "runs_leaving_store_keys": 0, "premature_drop_errors": 0}
     reps = 3 if big else 1
+    # planner-defect domains: decided in Coq (Model/PlanDefects.v classify_plan) on the exported plans, one batch
+    from harness import planner_b
+    pre = []
+    for spec in specs:
+        u0 = Universe(spec, GateListener())
+        pre.append(export_plan(u0.prepare(), u0))
+        u0.dispose()
+    planner_b.classify_prefetch(pre, rep_prefix="C09")
     for spec in specs:
         uni = Universe(spec, GateListener())
         plan = export_plan(uni.prepare(), uni)
         # the plan predicates describe link-free plans; in a joined plan both sources list the consumer as child by design (the run-time
         # lookup follows the merge relation, Model/RoutingJ.v): the shared-upload family lies outside every recorded domain
-        planner_kf = False if spec.get("family") == "shared_upload" else bool(kf_tfs_partial_requirement(plan) or kf_framework_roundtrip(plan) or kf_tfs_missing(plan))
+        planner_kf = False if spec.get("family") == "shared_upload" else bool(planner_b.classify_cached(plan, rep_prefix="C09"))
         fg = [s for s in plan["steps"] if s["kind"] == "FG"]
         fails: List[Optional[Tuple[str, str]]] = [None] + [(s["group"], s["names"][0]) for s in (fg if big else fg[-1:])]
         for mode_name in ("SYNC", "THREADING", "MULTIPROCESSING"):
